@@ -769,6 +769,15 @@ qb_ipcs_us_disconnect(struct qb_ipcs_connection *c)
 		qb_ipcc_us_sock_close(c->setup.u.us.sock);
 		qb_ipcc_us_sock_close(c->request.u.us.sock);
 		qb_ipcc_us_sock_close(c->event.u.us.sock);
+		/*
+		 * the connection may live on (references, a closed callback
+		 * that wants to be called again): don't keep the numbers of
+		 * descriptors that are somebody else's from now on.
+		 */
+		c->setup.u.us.sock = -1;
+		c->request.u.us.sock = -1;
+		c->response.u.us.sock = -1;
+		c->event.u.us.sock = -1;
 	}
 	if (c->state == QB_IPCS_CONNECTION_SHUTTING_DOWN ||
 	    c->state == QB_IPCS_CONNECTION_ACTIVE) {
